@@ -112,11 +112,210 @@ Lemma to_go_fuel_S : forall f h path check v,
     end.
 Proof. reflexivity. Qed.
 
+Lemma container_fuel_S : forall h, container_fuel h = S (S (Pos.to_nat (next h))).
+Proof. reflexivity. Qed.
+Lemma quick_fuel_S : quick_fuel = S 99.
+Proof. reflexivity. Qed.
+
+(* ================================================================== *)
+(* fuel monotonicity and the staged definitions                         *)
+
+Lemma pp_items_mono : forall (rec rec' : value -> option bytes) h,
+  (forall v b, rec v = Some b -> rec' v = Some b) ->
+  forall l first b, pp_items rec h l first = Some b -> pp_items rec' h l first = Some b.
+Proof.
+  intros rec rec' h H l. induction l as [|c l IH]; intros first b E; cbn [pp_items] in *; [exact E|].
+  destruct (rec (load h c)) as [a|] eqn:E1; [|discriminate].
+  destruct (pp_items rec h l false) as [r|] eqn:E2; [|discriminate].
+  rewrite (H _ _ E1), (IH _ _ E2). exact E.
+Qed.
+
+Lemma pp_fields_mono : forall (rec rec' : value -> option bytes) h,
+  (forall v b, rec v = Some b -> rec' v = Some b) ->
+  forall l first b, pp_fields rec h l first = Some b -> pp_fields rec' h l first = Some b.
+Proof.
+  intros rec rec' h H l. induction l as [|[k c] l IH]; intros first b E; cbn [pp_fields] in *; [exact E|].
+  destruct (rec (load h c)) as [a|] eqn:E1; [|discriminate].
+  destruct (pp_fields rec h l false) as [r|] eqn:E2; [|discriminate].
+  rewrite (H _ _ E1), (IH _ _ E2). exact E.
+Qed.
+
+(* more fuel, same answer *)
+Theorem pretty_fuel_mono : forall n h path quote check v b,
+  pretty_fuel n h path quote check v = Some b ->
+  forall m, (n <= m)%nat -> pretty_fuel m h path quote check v = Some b.
+Proof.
+  induction n as [|f IH]; intros h path quote check v b E m Hm; [discriminate|].
+  destruct m as [|m]; [lia|]. rewrite pretty_fuel_S in *.
+  destruct (check && existsb (fun r => is_same h r v) path)%bool; [exact E|].
+  assert (Hrec : forall w c, pretty_fuel f h (path ++ [v]) true true w = Some c ->
+                             pretty_fuel m h (path ++ [v]) true true w = Some c).
+  { intros w c Hw. apply (IH _ _ _ _ _ _ Hw). lia. }
+  destruct v as [s|bb|x|bid off len|o|sp|nt bd|i|s|]; try exact E.
+  - destruct (pp_items (pretty_fuel f h _ true true) h (arr_cells h bid off len) true) as [body|] eqn:E1;
+      [|discriminate].
+    now rewrite (pp_items_mono _ _ h Hrec _ _ _ E1).
+  - destruct (pp_fields (pretty_fuel f h _ true true) h (get_obj h o) true) as [body|] eqn:E1;
+      [|discriminate].
+    now rewrite (pp_fields_mono _ _ h Hrec _ _ _ E1).
+Qed.
+
+Lemma tg_items_mono : forall (g g' : value -> go_result) h,
+  (forall v r, g v = r -> r <> GoFuel -> g' v = r) ->
+  forall l x, tg_items h g l = Some x -> tg_items h g' l = Some x.
+Proof.
+  intros g g' h H l. induction l as [|c l IH]; intros x E; cbn [tg_items] in *; [exact E|].
+  destruct (g (load h c)) as [j| |] eqn:E1; [| |discriminate].
+  - rewrite (H _ _ E1) by discriminate.
+    destruct (tg_items h g l) as [y|] eqn:E2; [|discriminate].
+    rewrite (IH _ eq_refl). exact E.
+  - rewrite (H _ _ E1) by discriminate. exact E.
+Qed.
+
+Lemma tg_fields_mono : forall (g g' : value -> go_result) h,
+  (forall v r, g v = r -> r <> GoFuel -> g' v = r) ->
+  forall l x, tg_fields h g l = Some x -> tg_fields h g' l = Some x.
+Proof.
+  intros g g' h H l. induction l as [|[k c] l IH]; intros x E; cbn [tg_fields] in *; [exact E|].
+  destruct (g (load h c)) as [j| |] eqn:E1; [| |discriminate].
+  - rewrite (H _ _ E1) by discriminate.
+    destruct (tg_fields h g l) as [y|] eqn:E2; [|discriminate].
+    rewrite (IH _ eq_refl). exact E.
+  - rewrite (H _ _ E1) by discriminate. exact E.
+Qed.
+
+Theorem to_go_fuel_mono : forall n h path check v r,
+  to_go_fuel n h path check v = r -> r <> GoFuel ->
+  forall m, (n <= m)%nat -> to_go_fuel m h path check v = r.
+Proof.
+  induction n as [|f IH]; intros h path check v r E Hr m Hm; [cbn in E; congruence|].
+  destruct m as [|m]; [lia|]. rewrite to_go_fuel_S in *.
+  destruct (check && existsb (fun r => is_same h r v) path)%bool; [exact E|].
+  assert (Hrec : forall w x, to_go_fuel f h (path ++ [v]) true w = x -> x <> GoFuel ->
+                             to_go_fuel m h (path ++ [v]) true w = x).
+  { intros w x Hw Hx. apply (IH _ _ _ _ _ Hw Hx). lia. }
+  destruct v as [s|bb|x|bid off len|o|sp|nt bd|i|s|]; try exact E.
+  - destruct (tg_items h (to_go_fuel f h _ true) (arr_cells h bid off len)) as [y|] eqn:E1;
+      [|congruence].
+    now rewrite (tg_items_mono _ _ h Hrec _ _ E1).
+  - destruct (tg_fields h (to_go_fuel f h _ true) (get_obj h o)) as [y|] eqn:E1;
+      [|congruence].
+    now rewrite (tg_fields_mono _ _ h Hrec _ _ E1).
+Qed.
+
+(* two runs that both finish agree *)
+Lemma pretty_fuel_agree : forall n m h path quote check v b c,
+  pretty_fuel n h path quote check v = Some b -> pretty_fuel m h path quote check v = Some c -> b = c.
+Proof.
+  intros n m h path quote check v b c E1 E2.
+  pose proof (pretty_fuel_mono _ _ _ _ _ _ _ E1 (Nat.max n m) (Nat.le_max_l _ _)) as H1.
+  pose proof (pretty_fuel_mono _ _ _ _ _ _ _ E2 (Nat.max n m) (Nat.le_max_r _ _)) as H2.
+  congruence.
+Qed.
+
+Lemma to_go_fuel_agree : forall n m h path check v r r',
+  to_go_fuel n h path check v = r -> r <> GoFuel ->
+  to_go_fuel m h path check v = r' -> r' <> GoFuel -> r = r'.
+Proof.
+  intros n m h path check v r r' E1 H1 E2 H2.
+  pose proof (to_go_fuel_mono _ _ _ _ _ _ E1 H1 (Nat.max n m) (Nat.le_max_l _ _)) as G1.
+  pose proof (to_go_fuel_mono _ _ _ _ _ _ E2 H2 (Nat.max n m) (Nat.le_max_r _ _)) as G2.
+  congruence.
+Qed.
+
+(* the staged definitions, with the first-stage fuel as a parameter (all reasoning is done
+   with a variable fuel so that nothing tries to compute with quick_fuel) *)
+Definition pstaged (q : nat) (h : heap) (v : value) : option bytes :=
+  match pretty_fuel q h [] false false v with
+  | Some b => Some b
+  | None => pretty_fuel (container_fuel h) h [] false false v
+  end.
+Definition gstaged (q : nat) (h : heap) (v : value) : go_result :=
+  match to_go_fuel q h [] false v with
+  | GoFuel => to_go_fuel (container_fuel h) h [] false v
+  | r => r
+  end.
+Lemma pretty_string_staged : forall h v, pretty_string h v = pstaged quick_fuel h v.
+Proof. intros. unfold pretty_string. unfold pstaged. apply eq_refl. Qed.
+Lemma to_go_value_staged : forall h v, to_go_value h v = gstaged quick_fuel h v.
+Proof. intros. unfold to_go_value. unfold gstaged. apply eq_refl. Qed.
+
+Lemma pstaged_eq : forall q h v,
+  pretty_fuel (container_fuel h) h [] false false v <> None ->
+  pstaged q h v = pretty_fuel (container_fuel h) h [] false false v.
+Proof.
+  intros q h v H. unfold pstaged.
+  destruct (pretty_fuel q h [] false false v) as [b|] eqn:E1; [|reflexivity].
+  destruct (pretty_fuel (container_fuel h) h [] false false v) as [c|] eqn:E2; [|congruence].
+  f_equal. eapply pretty_fuel_agree; eauto.
+Qed.
+
+Lemma pstaged_inv : forall q h v b, pstaged q h v = Some b ->
+  exists n, pretty_fuel (S n) h [] false false v = Some b.
+Proof.
+  intros q h v b E. unfold pstaged in E.
+  destruct (pretty_fuel q h [] false false v) as [c|] eqn:E1.
+  - inversion E; subst. destruct q as [|q]; [discriminate E1|]. exists q. exact E1.
+  - exists (S (Pos.to_nat (next h))). rewrite <- container_fuel_S. exact E.
+Qed.
+
+Lemma gstaged_eq : forall q h v,
+  to_go_fuel (container_fuel h) h [] false v <> GoFuel ->
+  gstaged q h v = to_go_fuel (container_fuel h) h [] false v.
+Proof.
+  intros q h v H. unfold gstaged.
+  destruct (to_go_fuel q h [] false v) as [j| |] eqn:E1; try reflexivity.
+  - eapply to_go_fuel_agree; eauto. discriminate.
+  - eapply to_go_fuel_agree; eauto. discriminate.
+Qed.
+
+Lemma gstaged_inv : forall q h v r, gstaged q h v = r -> r <> GoFuel ->
+  exists n, to_go_fuel (S n) h [] false v = r.
+Proof.
+  intros q h v r E H. unfold gstaged in E.
+  destruct (to_go_fuel q h [] false v) as [j| |] eqn:E1.
+  - destruct q as [|q]; [discriminate E1|]. exists q. congruence.
+  - destruct q as [|q]; [discriminate E1|]. exists q. congruence.
+  - exists (S (Pos.to_nat (next h))). rewrite <- container_fuel_S. exact E.
+Qed.
+
+(* the staged definitions give the answer of the full fuel whenever that finishes *)
+Theorem pretty_string_eq : forall h v,
+  pretty_fuel (container_fuel h) h [] false false v <> None ->
+  pretty_string h v = pretty_fuel (container_fuel h) h [] false false v.
+Proof. intros h v H. rewrite pretty_string_staged. now apply pstaged_eq. Qed.
+
+Lemma pretty_string_of_full : forall h v b,
+  pretty_fuel (container_fuel h) h [] false false v = Some b -> pretty_string h v = Some b.
+Proof. intros h v b E. rewrite pretty_string_eq; [exact E|congruence]. Qed.
+
+(* and whatever pretty_string answers, some fuel answers *)
+Lemma pretty_string_inv : forall h v b, pretty_string h v = Some b ->
+  exists n, pretty_fuel (S n) h [] false false v = Some b.
+Proof. intros h v b. rewrite pretty_string_staged. apply pstaged_inv. Qed.
+
+Theorem to_go_value_eq : forall h v,
+  to_go_fuel (container_fuel h) h [] false v <> GoFuel ->
+  to_go_value h v = to_go_fuel (container_fuel h) h [] false v.
+Proof. intros h v H. rewrite to_go_value_staged. now apply gstaged_eq. Qed.
+
+Lemma to_go_value_of_full : forall h v r,
+  to_go_fuel (container_fuel h) h [] false v = r -> r <> GoFuel -> to_go_value h v = r.
+Proof. intros h v r E H. rewrite to_go_value_eq; [exact E|congruence]. Qed.
+
+Lemma to_go_value_inv : forall h v r, to_go_value h v = r -> r <> GoFuel ->
+  exists n, to_go_fuel (S n) h [] false v = r.
+Proof. intros h v r. rewrite to_go_value_staged. apply gstaged_inv. Qed.
+
+(* From here on the two staged functions are only used through the lemmas above.  Telling
+   the conversion oracle to unfold them last keeps Qed from comparing two separately
+   unfolded copies of a 100-level recursion (a heuristic only: nothing is hidden from the
+   kernel). *)
+Local Strategy opaque [to_go_value pretty_string].
+
 (* ================================================================== *)
 (* scalars, numbers, the cycle marker                                   *)
 
-Lemma container_fuel_S : forall h, container_fuel h = S (S (Pos.to_nat (next h))).
-Proof. reflexivity. Qed.
 
 (* a value that is not a container renders without looking at the heap *)
 Definition scalar_text (quote : bool) (v : value) : bytes :=
@@ -166,9 +365,11 @@ Theorem pretty_scalars : forall h,
   (forall f path check v, is_container v = false -> (forall s, v <> VStr s) ->
      pretty_fuel (S f) h path true check v = pretty_string h v).
 Proof.
-  intro h. unfold pretty_string. rewrite container_fuel_S.
-  repeat split; intros; try (now rewrite pretty_fuel_scalar).
-  rewrite !pretty_fuel_scalar by assumption.
+  intro h.
+  assert (HS : forall v, is_container v = false -> pretty_string h v = Some (scalar_text false v)).
+  { intros v Hv. apply pretty_string_of_full. rewrite container_fuel_S. now apply pretty_fuel_scalar. }
+  repeat split; intros; try (now rewrite HS); try (now rewrite pretty_fuel_scalar).
+  rewrite HS, pretty_fuel_scalar by assumption.
   destruct v; try reflexivity. exfalso. eapply H0. reflexivity.
 Qed.
 
@@ -205,7 +406,10 @@ Theorem to_go_inexpressible : forall h,
   (forall s, to_go_value h (VRegex s) = GoErr) /\
   to_go_value h VUnknown = GoOk JNull /\
   (forall sp, to_go_value h (VNil sp) = GoOk JNull).
-Proof. intro h. unfold to_go_value. rewrite container_fuel_S. repeat split. Qed.
+Proof.
+  intro h. repeat split; intros; apply to_go_value_of_full; try discriminate;
+    rewrite container_fuel_S; reflexivity.
+Qed.
 
 (* ================================================================== *)
 (* termination: the shared pigeonhole argument                          *)
@@ -360,10 +564,13 @@ Section Termination.
 
   Theorem pretty_terminates_cb : forall v, pretty_string h v <> None.
   Proof.
-    intro v. unfold pretty_string. apply pretty_fuel_some.
-    - apply good_nil.
-    - now left.
-    - rewrite container_fuel_S. cbn [length]. lia.
+    intro v.
+    assert (H : pretty_fuel (container_fuel h) h [] false false v <> None).
+    { apply pretty_fuel_some.
+      - apply good_nil.
+      - now left.
+      - rewrite container_fuel_S. cbn [length]. lia. }
+    rewrite pretty_string_eq; exact H.
   Qed.
 
   (* ---------- the same for ToGoValue ---------- *)
@@ -420,10 +627,13 @@ Section Termination.
 
   Theorem to_go_terminates_cb : forall v, to_go_value h v <> GoFuel.
   Proof.
-    intro v. unfold to_go_value. apply to_go_fuel_some.
-    - apply good_nil.
-    - now left.
-    - rewrite container_fuel_S. cbn [length]. lia.
+    intro v.
+    assert (H : to_go_fuel (container_fuel h) h [] false v <> GoFuel).
+    { apply to_go_fuel_some.
+      - apply good_nil.
+      - now left.
+      - rewrite container_fuel_S. cbn [length]. lia. }
+    rewrite to_go_value_eq; exact H.
   Qed.
 End Termination.
 
@@ -512,7 +722,7 @@ Qed.
 Theorem to_go_value_doc : forall h p v j, doc_at h p v j -> p <= next h ->
   to_go_value h v = GoOk j.
 Proof.
-  intros h p v j Hd Hp. unfold to_go_value. rewrite container_fuel_S.
+  intros h p v j Hd Hp. apply to_go_value_of_full; [|discriminate]. rewrite container_fuel_S.
   apply (proj1 (to_go_doc h) (next h)).
   - eapply doc_mono; eauto.
   - lia.
@@ -622,7 +832,8 @@ Qed.
 Theorem to_go_contains_itself : forall h v, contains_itself h v ->
   forall j, to_go_value h v <> GoOk j.
 Proof.
-  intros h v [w [Hc Hr]] j E. unfold to_go_value in E. rewrite container_fuel_S in E.
+  intros h v [w [Hc Hr]] j E.
+  destruct (to_go_value_inv h v _ E ltac:(discriminate)) as [n En]. clear E. rename En into E.
   destruct (to_go_ok_child _ _ _ _ _ _ _ E Hc) as [j' E'].
   eapply to_go_reach_not_ok; [exact Hr| |eapply child_self_same; exact Hc|exact E'].
   now left.
@@ -952,7 +1163,7 @@ Theorem pretty_string_doc : forall h p v j, doc_at h p v j -> p <= next h ->
      pretty_fuel f h path true check v = Some (jrender true j)).
 Proof.
   intros h p v j Hd Hp. split.
-  - unfold pretty_string. rewrite container_fuel_S.
+  - apply pretty_string_of_full. rewrite container_fuel_S.
     apply (proj1 (pretty_doc h) (next h)); [eapply doc_mono; eauto|lia|intros r []].
   - intros f path check Hf Hpa. now apply (proj1 (pretty_doc h) p).
 Qed.
